@@ -157,7 +157,32 @@ pub fn replay(input: &str, output: &str) {
         sets.push((format!("random-{}", k), p));
     }
     for (n, (name, p)) in sets.iter().enumerate() {
-        let text = p.to_yaml();
+        let mut text = p.to_yaml();
+        // every second file carries the limits as the library prints them (Constraints::to_yaml): the section is not
+        // read back, the parameters in front of it are; the printed limits are the limits to the printed precision
+        if n % 2 == 1 {
+            let from: [f64; 6] = std::array::from_fn(|i| if (n + i) % 5 == 0 { 0.0 } else { r.gen_range(-6.2..6.2) });
+            let to: [f64; 6] = std::array::from_fn(|i| if (n + i) % 7 == 0 { 0.0 } else { r.gen_range(-6.2..6.2) });
+            let c = rs_opw_kinematics::constraints::Constraints::new(from, to, 0.0);
+            if let Some(section) = guarded(|| c.to_yaml()) {
+                evals += 1;
+                let nums = |line: &str| -> Vec<f64> {
+                    line.split(|ch| ch == '[' || ch == ']').nth(1).unwrap_or("").split(',').filter_map(|t| {
+                        let t = t.trim();
+                        if let Some(x) = t.strip_prefix("deg(").and_then(|x| x.strip_suffix(')')) { x.parse::<f64>().ok().map(|d| d.to_radians()) } else { t.parse::<f64>().ok() }
+                    }).collect()
+                };
+                let lf: Vec<f64> = section.lines().find(|l| l.trim_start().starts_with("from:")).map(nums).unwrap_or_default();
+                let lt: Vec<f64> = section.lines().find(|l| l.trim_start().starts_with("to:")).map(nums).unwrap_or_default();
+                let tol = (0.00005f64).to_radians() * 1.01;
+                if !(section.starts_with("constraints:") && lf.len() == 6 && lt.len() == 6 && (0..6).all(|i| (lf[i] - from[i]).abs() <= tol && (lt[i] - to[i]).abs() <= tol)) {
+                    out.put(json!({"sig": "yaml:printed-limits-differ-from-the-limits", "detail": format!("{:?} .. {:?} printed as {}", from, to, section)}));
+                }
+                text.push_str(&section);
+            } else {
+                out.put(json!({"sig": "yaml:printing-limits-panics", "detail": format!("{:?} .. {:?}", from, to)}));
+            }
+        }
         evals += 1;
         let integral = lens_of(p).iter().any(|x| x.fract() == 0.0);
         let class = format!("{}:{}", if integral { "integral-length" } else { "fractional-lengths" }, if p.dof == 5 { "dof5" } else { "dof6" });
